@@ -27,7 +27,7 @@ def gen_cases(seed, tier, n):
     out = []
     profs = ["cp", "cp_tiny", "cp"]
     for i in range(n):
-        c = tracegen.gen_case(seed, i, tracegen.PROFILES[profs[i % len(profs)]])
+        c = tracegen.gen_sync_scenario(seed, i) if i % 5 == 4 else tracegen.gen_case(seed, i, tracegen.PROFILES[profs[i % len(profs)]])
         rng = random.Random(seed * 7919 + i)
         c["params"] = {"pseed": rng.randint(0, 10 ** 9), "zw": rng.random() < 0.3}
         out.append(c)
